@@ -744,7 +744,17 @@ func (t *Terms) stepCall(x ssa.CallInstruction, m *memState) {
 		}
 	}
 	if isVal {
-		t.val[v] = t.callTerm(x)
+		term := t.callTerm(x)
+		// a pure function of a slice depends on the slice's elements: version the term by the
+		// element class when elements of that slice type were overwritten earlier on this path
+		for _, a := range x.Common().Args {
+			if _, isSlice := a.Type().Underlying().(*types.Slice); isSlice {
+				if ver, ok := m.classV["elem:"+shortType(a.Type())]; ok && !strings.Contains(term, "@") {
+					term += "!e" + ver
+				}
+			}
+		}
+		t.val[v] = term
 	}
 	if !t.isQuietCall(x) {
 		t.invalidateForCall(x, m, tag)
